@@ -128,6 +128,23 @@ def realisable(L, kw):
     return True
 
 
+def _pole_band(L, kw):
+    """the input class of the open finding: a size + total expansion (given or implied by two sizes) whose solution is
+    two cells of almost equal size - length / smaller size within 2e-3 of 2 and 1e-7 <= |E - 1| < 2e-3. There the root
+    cnt = 2 of the library's count equation sits next to its pole cnt = 1 inside the bracket [0, L / d_min]."""
+    if "start_size" in kw and "end_size" in kw:
+        et, small = kw["end_size"] / kw["start_size"], min(kw["start_size"], kw["end_size"])
+    elif "total_expansion" in kw and ("start_size" in kw or "end_size" in kw):
+        et = kw["total_expansion"]
+        other = kw["start_size"] * et if "start_size" in kw else kw["end_size"] / et
+        small = min(kw.get("start_size", kw.get("end_size")), other)
+    else:
+        return ""
+    if small > 0 and abs(L / small - 2) < 4e-3 and 1e-7 <= abs(et - 1) < 2e-3:
+        return ":two-cell-solution-next-to-the-pole"
+    return ""
+
+
 def run_case(ctx, case):
     from classy_blocks.grading.chop import Chop
     from classy_blocks.grading.grading import Grading
@@ -176,8 +193,7 @@ def run_case(ctx, case):
         if not can:
             ctx.count("truth:perturbation-made-it-unrealisable")
             return
-        et = kw.get("total_expansion", kw["end_size"] / kw["start_size"] if "start_size" in kw and "end_size" in kw else None)
-        band = ":total-expansion-within-1e-5-of-1" if et is not None and 1e-7 <= abs(et - 1) < 1e-5 else ""
+        band = _pole_band(L, kw)
         ctx.violation(f"realisable-rejected:{'+'.join(pair)}:{type(err).__name__}{band}", f"L={L} {kw}: {err!r}")
         return
     if not can:
@@ -223,7 +239,8 @@ def run_case(ctx, case):
         ctx.violation(f"ill-formed-result(inverted):{'+'.join(pair)}", str(cerr))
         return
     except Exception as exc:  # noqa: BLE001
-        ctx.violation(f"inverted-chop-rejected:{'+'.join(pair)}:{type(exc).__name__}", f"L={L} {kw}: inverted chop raised {exc!r}")
+        band = _pole_band(L, kw)
+        ctx.violation(f"inverted-chop-rejected:{'+'.join(pair)}:{type(exc).__name__}{band}", f"L={L} {kw}: inverted chop raised {exc!r}")
         return
     ctx.count("judged:inverted")
     near_integer = "count" not in kw and _near_rounding_boundary(L, kw, n)
